@@ -249,6 +249,35 @@ pub fn check_case(c: &Case, rep: &mut Report) {
                                 }
                             }
                         }
+                        // the other order, for one alteration in four: the genuine message is accepted first, then its altered
+                        // copy arrives (same signature header unless that is what was altered); it must be refused too
+                        if r.chance(1, 4) && viol.is_empty() {
+                            let mut again = mirrored(&session_key);
+                            let mut a_c2s = Direction::new(&session_key, true);
+                            let mut a_s2c = Direction::new(&session_key, false);
+                            let mut ok = true;
+                            for (j, prev) in c.ops.iter().enumerate().take(i) {
+                                match prev {
+                                    Op::Wrap(m) => {
+                                        let _ = a_c2s.wrap(&plaintext(c.key_seed, j, *m));
+                                        ok &= again.gss_wrapex(&plaintext(c.key_seed, j, *m)).is_ok();
+                                    }
+                                    Op::Unwrap(m) => {
+                                        let s = a_s2c.wrap(&plaintext(c.key_seed, j, *m));
+                                        ok &= again.gss_unwrapex(&s).is_ok();
+                                    }
+                                }
+                            }
+                            ok &= again.gss_unwrapex(&sealed).is_ok();
+                            if ok {
+                                rep.count("altered_copies_after_the_genuine_message", 1);
+                                match mon::guarded(|| again.gss_unwrapex(&t).map_err(|e| client::err_kind(&e))) {
+                                    Err(p) => viol.push((format!("C16/tamper/{}/after-genuine/{}", name, p.sig()), format!("op {}: {}", i, p.msg))),
+                                    Ok(Ok(p)) => viol.push((format!("C16/tamper/{}/accepted-after-the-genuine-message", name), format!("op {} of {:?}: once the genuine message had been accepted, its altered copy ({} bytes) was accepted too and yielded {} bytes", i, c.ops, t.len(), p.len()))),
+                                    Ok(Err(_)) => rep.hist("altered-copy-rejected-after-genuine"),
+                                }
+                            }
+                        }
                         if viol.len() > 8 {
                             break;
                         }
@@ -277,7 +306,21 @@ pub fn check_case(c: &Case, rep: &mut Report) {
             break;
         }
     }
-    if c.handshake && viol.is_empty() {
+    if c.handshake && viol.is_empty() && c.gen[1] % 2 == 1 {
+        // the context obtained from the handshake: a genuine message is accepted, then an altered copy of it arrives
+        let pt = plaintext(c.key_seed, 998, 24);
+        let sealed = s2c.wrap(&pt);
+        let ts = tampers(&sealed, &mut r, false);
+        let (name, t) = &ts[r.below(ts.len() as u64) as usize];
+        if matches!(mon::guarded(|| ctx.gss_unwrapex(&sealed).map_err(|e| client::err_kind(&e))), Ok(Ok(_))) {
+            rep.count("altered_copies_after_the_genuine_message", 1);
+            match mon::guarded(|| ctx.gss_unwrapex(t).map_err(|e| client::err_kind(&e))) {
+                Ok(Ok(_)) => viol.push((format!("C16/tamper/{}/accepted-after-the-genuine-message", name), "the context obtained from the handshake accepted the altered copy of a message it had just accepted".into())),
+                Err(p) => viol.push((format!("C16/tamper/{}/after-genuine/{}", name, p.sig()), p.msg.clone())),
+                Ok(Err(_)) => rep.hist("altered-copy-rejected-after-genuine"),
+            }
+        }
+    } else if c.handshake && viol.is_empty() {
         // one tamper at the end of the history
         let pt = plaintext(c.key_seed, 999, 24);
         let sealed = s2c.wrap(&pt);
